@@ -145,6 +145,8 @@ func VerifMain(args []string) int {
 		}
 		run(genLattice(12, 4))
 		run(genChain(2000))
+	case "names":
+		runNameStreams(out, r, *n)
 	case "sig":
 		runSigStreams(out, *nodes)
 	default:
